@@ -13,6 +13,7 @@ SHARED = {
     "DDef": ["C01", "C07", "C19"],
     "DDef2": ["C01"],
     "DHom": ["C07", "C19", "C04"],
+    "Matrix": ["C03", "C04", "C15"],
     "W3jBounds": ["C05"],
     "FlatSteps": ["C01", "C08", "C15"],
 }
